@@ -1000,4 +1000,43 @@ func main() {
 			o.Fail("frame_roundtrip", line3, text3)
 		}
 	}
+	tl2SizeSweep(o)
+}
+
+// TL2 size prefixes: TL2CalculateSize / TL2WriteSize / TL2PutSize / TL2ParseSize must agree for every length (the generated
+// writers precompute sizes with TL2CalculateSize and abort when the written length differs). Go-side oracle on every
+// length 0..70000 and around 2^24 / 2^32; the boundary lengths are also decided by the model (CSize).
+func tl2SizeSweep(o *vu.Out) {
+	one := func(l int, emit bool) {
+		w := basictl.TL2WriteSize(nil, l)
+		calc := basictl.TL2CalculateSize(l)
+		var buf [9]byte
+		put := basictl.TL2PutSize(buf[:], l)
+		rest, pl, err := basictl.TL2ParseSize(append(append([]byte(nil), w...), 0xAA))
+		text := fmt.Sprintf("tl2 size prefix l=%d", l)
+		line := o.N
+		if emit {
+			obs := "None"
+			if err == nil {
+				obs = fmt.Sprintf("(Some (%d, %d))", pl, len(rest))
+			}
+			line = o.Case(text, fmt.Sprintf("CSize %d %s %d %d %s", l, vu.Bytes(w), calc, put, obs), l >= 254, "tl2:size_prefix")
+		}
+		if calc != len(w) || put != len(w) || !bytes.Equal(buf[:put], w) || err != nil || pl != l || len(rest) != 1 {
+			o.Fail("tl2_size_prefix_consistent", line, text)
+		}
+		o.Hist["oracle:tl2_size_prefix"]++
+	}
+	emit := map[int]bool{}
+	for _, b := range []int{0, 1, 253, 254, 255, 256, 65535, 65536, 65537, 65700, 65788, 65789, 65790, 65791, 70000, 1 << 24, 1<<24 + 254, 1<<32 - 1, 1 << 32, 1<<32 + 254} {
+		emit[b] = true
+	}
+	for l := 0; l <= 70000; l++ {
+		one(l, emit[l])
+	}
+	for _, c := range []int{1 << 24, 1 << 32} {
+		for l := c - 300; l <= c+300; l++ {
+			one(l, emit[l])
+		}
+	}
 }
